@@ -193,7 +193,7 @@ DEFAULT_PROFILE = dict(
     dip_spellings=True, result_dip=False, keyword_params=True, nested_structs=True,
     max_params=5, cb_struct_args=True, opt_slices=True, char=False, ordering=True,
     mut_self=True, opt_mut_oref=True, namespaces=False, byte_slices=True, renames=False,
-    strs_utf8=False, result_prim_err=True, opt_owned=False, write_prob=0.18, cb_opt=True, cb_slices=True, cb_strs=True, cb_aggr_ret=True, traits=False, trait_prob=0.5, held_callbacks=False, self_spelling=True, opt_strs=True, cb_orefs=False, opt_slice_fields=False,
+    strs_utf8=False, result_prim_err=True, opt_owned=False, write_prob=0.18, cb_opt=True, cb_slices=True, cb_strs=True, cb_aggr_ret=True, traits=False, trait_prob=0.5, held_callbacks=False, self_spelling=True, opt_strs=True, cb_orefs=False, opt_slice_fields=False, trait_method_disable=0.0,
 )
 
 
@@ -208,6 +208,7 @@ class Gen:
         self.name = name
         self.enums, self.structs, self.outstructs, self.opaques = [], [], [], []
         self.traits = []
+        self.trait_mattrs = {}        # (trait, method) -> attribute text: backend attributes on trait methods (seed C01-g: a disabled slot must stay in the vtable)
         self.counter = 0
 
     # ---- helpers
@@ -362,7 +363,13 @@ class Gen:
         meths = []
         for j in range(self.ri(1, 4)):
             meths.append(("tm%d" % j, self.chance(0.25), [self.cb_arg() for _ in range(self.ri(0, 3))], self.cb_ret()))
-        return ("tr", self.fresh("Tr"), meths)
+        name = self.fresh("Tr")
+        if self.p["trait_method_disable"]:
+            # the vtable Rust compiles is positional and has one slot per declared method whatever the backends disable
+            for mname, _, _, _ in meths[:-1] if len(meths) > 1 and self.chance(0.7) else meths:
+                if self.chance(self.p["trait_method_disable"]):
+                    self.trait_mattrs[(name, mname)] = "#[diplomat::attr(%s, disable)]" % self.pick(["c", "*", "any(c, kotlin)", "not(cpp)", "all(c, not(js))"])
+        return ("tr", name, meths)
 
     def param_type(self, ctx):
         p = self.p
@@ -377,6 +384,9 @@ class Gen:
             return ("opt", ("strs", self.pick(["ustr", "u16"])), "std")      # optional arrays of strings (present-but-empty must stay present)
         if p.get("utf8_bias") and p["utf8"] and self.chance(0.35):
             return ("str", "utf8", None, "std")       # several validated strings per method (each must be checked on its own)
+        if p.get("cb_bias") and p["callbacks"] and not ctx.get("has_cb") and self.chance(p["cb_bias"]):
+            ctx["has_cb"] = True                      # a callback early in the list: later parameters are converted / validated after it
+            return ("cb", [self.cb_arg() for _ in range(self.ri(0, 3))], self.cb_ret(), self.chance(0.4))
         c = self.r.random()
         if c < 0.30:
             return ("prim", self.pick(self.prims()))
@@ -598,6 +608,7 @@ class Gen:
 
     def program(self):
         prog = Program(self.name)
+        prog.trait_mattrs = self.trait_mattrs
         mod = Module("ffi")
         prog.modules.append(mod)
         for _ in range(self.ri(*self.n_enums)):
